@@ -49,6 +49,11 @@ pub fn principals(recs: &[Rec]) -> Vec<ScAddress> {
 }
 
 pub fn entry(e: &Env, a: &ScAddress, inv: &SorobanAuthorizedInvocation) -> SorobanAuthorizationEntry {
+    entry_with_sig(e, a, inv, ScVal::Void)
+}
+
+/// Authorization entry for a custom account: `sig` is handed to its `__check_auth` as the signature.
+pub fn entry_with_sig(e: &Env, a: &ScAddress, inv: &SorobanAuthorizedInvocation, sig: ScVal) -> SorobanAuthorizationEntry {
     let nonce = NONCE.with(|n| {
         n.set(n.get() + 1);
         n.get()
@@ -58,7 +63,7 @@ pub fn entry(e: &Env, a: &ScAddress, inv: &SorobanAuthorizedInvocation) -> Sorob
             address: a.clone(),
             nonce,
             signature_expiration_ledger: e.ledger().sequence().saturating_add(1000),
-            signature: ScVal::Void,
+            signature: sig,
         }),
         root_invocation: inv.clone(),
     }
@@ -151,6 +156,12 @@ fn classify(r: Result<Result<Val, soroban_sdk::ConversionError>, Result<soroban_
         }
         Err(Err(ie)) => Err(CallErr::Other(format!("{ie:?}"))),
     }
+}
+
+/// Call `c.f(args)` under enforcing authorization with exactly these (already built) entries.
+pub fn call_entries(e: &Env, c: &Address, f: &str, args: SVec<Val>, entries: &[SorobanAuthorizationEntry]) -> CallRes {
+    e.set_auths(entries);
+    classify(e.try_invoke_contract::<Val, soroban_sdk::Error>(c, &Symbol::new(e, f), args))
 }
 
 /// Call `c.f(args)` with recording ("mock all") authorization.
